@@ -1,4 +1,5 @@
 import CwPlus.Lemmas.Cw3Fixed
+import CwPlus.Lemmas.Cw3FixedAt
 /-!
 # C06 (cw3-fixed part) — each ballot is one eligible voter's weight from the fixed voter list
 
@@ -209,5 +210,207 @@ example : ballotsOf (run 10 exWorld exOps).ms.core 1 = [("z", ⟨0, .yes⟩), ("
 example : ((run 10 exWorld exOps).ms.core.proposals.get? 1).map (·.votes) = some ⟨3, 0, 0, 0⟩ := by decide
 /-- a repeated address is refused -/
 example : (instantiate { exInst with voters := [(⟨true, "a"⟩, 5), (⟨true, "a"⟩, 1), (⟨true, "b"⟩, 1)] }).isOk = false := by decide
+
+/-! ## over histories: the total is the sum of the listed weights; Vote / Propose succeed exactly for listed voters -/
+
+/-- The `for voter in msg.voters` loop stores every listed voter under its own address with its listed weight and keeps
+what was stored before (it refuses an address that is already stored: the D2 fix). -/
+theorem addVoters_get : ∀ (l : List (AddrArg × Nat)) (m0 m1 : AMap Addr Nat), addVoters l m0 = .ok m1 →
+    (∀ a w, (a, w) ∈ l → m1.get? a.text = some w) ∧ (∀ x v, m0.get? x = some v → m1.get? x = some v) ∧
+    (∀ x, m1.get? x ≠ none → m0.get? x ≠ none ∨ x ∈ l.map (·.1.text))
+  | [], m0, m1, h => by
+    simp [addVoters] at h; subst h
+    exact ⟨fun a w hm => (by cases hm), fun _ _ h => h, fun x hx => Or.inl hx⟩
+  | (a, w) :: rest, m0, m1, h => by
+    simp [addVoters] at h
+    obtain ⟨_, hnone, h⟩ := h
+    obtain ⟨h1, h2, h3⟩ := addVoters_get rest _ _ h
+    refine ⟨?_, ?_, ?_⟩
+    · intro a' w' hm
+      rcases List.mem_cons.mp hm with e | hm
+      · cases e; exact h2 a.text w (AMap.get?_set_eq _ _ _)
+      · exact h1 a' w' hm
+    · intro x v hx
+      have hne : a.text ≠ x := by intro e; subst e; rw [hnone] at hx; cases hx
+      exact h2 x v (by rw [AMap.get?_set_ne _ _ _ _ hne]; exact hx)
+    · intro x hx
+      rcases h3 x hx with h | h
+      · by_cases e : a.text = x
+        · right; simp [e]
+        · left; rwa [AMap.get?_set_ne _ _ _ _ e] at h
+      · right; simp only [List.map_cons, List.mem_cons]; exact Or.inr h
+
+/-- **`total_eq_sum_voters` over histories (with the D2 fix: duplicate voters are refused).**  After an accepted
+instantiation and ANY history — transactions by anybody with re-entrant self-calls and failing dispatches, funding, sink
+changes, any blocks — the configured total weight is still the sum of the stored voters' weights and the sum of the
+weights listed in the `InstantiateMsg`; the voter list has no repeated key and is the listed one: every listed voter is
+stored under its own address with exactly its listed weight, and nobody else is stored. -/
+theorem total_eq_sum_voters_run {m : InstMsg} {s : State} (h : instantiate m = .ok s) (fuel : Nat) (self : Addr)
+    (bank : AMap (Addr × String) Nat) (sink : Bool) (ops : List Op) :
+    let w := run fuel (World.init s self bank sink) ops
+    w.ms.cfg.totalWeight = AMap.sum w.ms.voters ∧ w.ms.cfg.totalWeight = (m.voters.map (·.2)).sum ∧
+    AMap.NodupKeys w.ms.voters ∧ (m.voters.map (·.1.text)).Nodup ∧
+    (∀ a wt, (a, wt) ∈ m.voters → w.ms.voters.get? a.text = some wt) ∧
+    (∀ x, w.ms.voters.get? x ≠ none → x ∈ m.voters.map (·.1.text)) := by
+  intro w
+  obtain ⟨hv, hc⟩ := voters_never_change fuel (World.init s self bank sink) ops
+  obtain ⟨h1, h2, h3, h4⟩ := total_eq_sum_voters h
+  have hvs : w.ms.voters = s.voters := hv
+  have hcs : w.ms.cfg = s.cfg := hc
+  rw [hvs, hcs]
+  refine ⟨h1, h3, h2, h4, ?_, ?_⟩
+  · simp [instantiate] at h
+    obtain ⟨_, total, _, _, voters, hadd, rfl⟩ := h
+    exact (addVoters_get _ _ _ hadd).1
+  · simp [instantiate] at h
+    obtain ⟨_, total, _, _, voters, hadd, rfl⟩ := h
+    intro x hx
+    rcases (addVoters_get _ _ _ hadd).2.2 x hx with h | h
+    · simp at h
+    · exact h
+
+/-- In a state satisfying the invariant, a voter who has not voted on a proposal fits into its tally: the ballots so far
+plus that voter's weight weigh at most the total. -/
+theorem room_for_new_ballot {s : State} (hi : Inv s) {id : Nat} {p : Proposal} {snd : Addr} {w : Nat}
+    (hp : s.core.proposals.get? id = some p) (hw : s.voters.get? snd = some w)
+    (hnb : (ballotsOf s.core id).get? snd = none) :
+    p.votes.yes + p.votes.no + p.votes.abstain + p.votes.veto + w ≤ p.totalWeight := by
+  have h1 : weightSum ((ballotsOf s.core id).set snd ⟨w, .yes⟩) ≤ AMap.sum s.voters := by
+    refine weightSum_le_sum _ _ (AMap.nodup_set (hi.wf.nodup id)) hi.votersNodup (fun a b hb => ?_)
+    rw [AMap.get?_set] at hb
+    by_cases e : snd = a
+    · subst e; simp at hb; subst hb; exact hw
+    · simp only [e, if_false] at hb; exact hi.ballotWeight id a b hb
+  rw [weightSum_set_new hnb, weightSum_eq] at h1
+  rw [(hi.propCfg id p hp).1, hi.total, hi.wf.tally id p hp]
+  simpa [tallyOf] using h1
+
+/-- **`vote_ok_iff` (cw3-fixed): who can vote, exactly.**  In every state satisfying the invariant (every reachable state:
+`reachable_inv`), a Vote by `snd` on proposal `id` at block `blk` succeeds if and only if the proposal exists, its stored
+status is Open, Passed or Rejected, it has not expired at `blk`, the sender is a listed voter of weight ≥ 1, and the sender
+has no ballot on it yet — nothing else (the option voted, the tally, the threshold play no role; inside the invariant the
+`u64` additions and the status computation cannot fail).  By `vote_requires_open_window` the ballot recorded is exactly
+`⟨VOTERS[snd], vote⟩`. -/
+theorem vote_ok_iff {s : State} (hi : Inv s) (blk : Block) (snd : Addr) (id : Nat) (v : Vote) :
+    (execute s blk snd (.vote id v)).isOk = true ↔
+      ∃ p w, s.core.proposals.get? id = some p ∧ votable p.status = true ∧ p.expires.isExpired blk = false ∧
+        s.voters.get? snd = some w ∧ 1 ≤ w ∧ (ballotsOf s.core id).get? snd = none := by
+  constructor
+  · intro h
+    cases hx : execute s blk snd (.vote id v) with
+    | error e => rw [hx] at h; cases h
+    | ok r =>
+      obtain ⟨s', out⟩ := r
+      obtain ⟨_, _, hc⟩ := execute_cases hx
+      rcases hc with ⟨_, _, _, _, _, _, hm, _⟩ | ⟨id', v', hm, _, hv⟩ | ⟨_, hm, _⟩ | ⟨_, hm, _⟩ <;> cases hm
+      obtain ⟨p, w, votes, st, hp, hvot, hexp, hw, hw1, hnb, _⟩ := vote_spec hv
+      exact ⟨p, w, hp, hvot, hexp, hw, hw1, hnb⟩
+  · rintro ⟨p, w, hp, hvot, hexp, hw, hw1, hnb⟩
+    have hroom := room_for_new_ballot hi hp hw hnb
+    obtain ⟨hT, hthr, _⟩ := hi.propCfg id p hp
+    have hu : p.totalWeight ≤ U64_MAX := by rw [hT]; exact hi.totalU64
+    -- the `u64` addition cannot overflow
+    have hmax : U64_MAX = 18446744073709551615 := rfl
+    obtain ⟨votes, hadd, hcast⟩ : ∃ votes, p.votes.add v w = .ok votes ∧
+        votes.yes + votes.no + votes.abstain + votes.veto = p.votes.yes + p.votes.no + p.votes.abstain + p.votes.veto + w := by
+      cases v
+      · have hy : p.votes.yes + w ≤ U64_MAX := by omega
+        exact ⟨{ p.votes with yes := p.votes.yes + w }, by simp [Votes.add, addU64, hy, bind, Except.bind, pure, Except.pure], by simp; omega⟩
+      · have hy : p.votes.no + w ≤ U64_MAX := by omega
+        exact ⟨{ p.votes with no := p.votes.no + w }, by simp [Votes.add, addU64, hy, bind, Except.bind, pure, Except.pure], by simp; omega⟩
+      · have hy : p.votes.abstain + w ≤ U64_MAX := by omega
+        exact ⟨{ p.votes with abstain := p.votes.abstain + w }, by simp [Votes.add, addU64, hy, bind, Except.bind, pure, Except.pure], by simp; omega⟩
+      · have hy : p.votes.veto + w ≤ U64_MAX := by omega
+        exact ⟨{ p.votes with veto := p.votes.veto + w }, by simp [Votes.add, addU64, hy, bind, Except.bind, pure, Except.pure], by simp; omega⟩
+    -- the status computation cannot fail
+    have hprem : CwPlus.Props.C04.Premise (Proposal.tally { p with votes := votes }) := by
+      refine ⟨?_, hu, ?_⟩
+      · show CwPlus.Props.C04.cast votes ≤ p.totalWeight
+        simp only [CwPlus.Props.C04.cast]; omega
+      · show p.threshold.validate p.totalWeight = .ok ()
+        rw [hT, hthr]; exact hi.thrValid
+    obtain ⟨st, hst⟩ := (CwPlus.Props.C04.no_panic hprem blk).2.2
+    have hst' : Proposal.currentStatus { p with votes := votes } blk = .ok st := hst
+    have hl : load s.core id = .ok p := by simp [hp]
+    have hnb' : ((ballotsOf s.core id).get? snd).isNone = true := by simp [hnb]
+    have hrw : requireWeight (s.voters.get? snd) = .ok w := by simp [hw, hw1]
+    simp [Cw3Fixed.execute, execVote, Cw3Core.vote, hl, hvot, hexp, hrw, hnb', hadd, hst', bind, Except.bind, check,
+      pure, Except.pure, Res.isOk]
+
+/-- **`propose_ok_iff` (cw3-fixed): who can propose, exactly.**  In every state satisfying the invariant, a Propose by
+`snd` at block `blk` succeeds if and only if the sender is a listed voter (any weight, also 0), the end of the maximum
+voting period is representable (`Duration::after` does not overflow `u64`), the requested `latest` is comparable with it
+(`chooseExpiry`), and the proposal counter does not overflow — title, description and messages play no role; the status
+computation of the fresh proposal cannot fail.  (`proposer_ballot_is_voter_weight`: the implicit Yes ballot records
+exactly `VOTERS[snd]`.) -/
+theorem propose_ok_iff {s : State} (hi : Inv s) (blk : Block) (snd : Addr) (t d : String) (msgs : List Msg)
+    (latest : Option Expiration) :
+    (execute s blk snd (.propose t d msgs latest)).isOk = true ↔
+      (∃ w, s.voters.get? snd = some w) ∧ (afterChecked s.cfg.maxVotingPeriod blk).isOk = true ∧
+      (chooseExpiry (s.cfg.maxVotingPeriod.after blk) latest).isOk = true ∧ s.core.count + 1 ≤ U64_MAX := by
+  constructor
+  · intro h
+    cases hx : execute s blk snd (.propose t d msgs latest) with
+    | error e => rw [hx] at h; cases h
+    | ok r =>
+      obtain ⟨s', out⟩ := r
+      obtain ⟨_, _, hc⟩ := execute_cases hx
+      rcases hc with ⟨_, _, _, _, w, id0, hm, hw, _, hp⟩ | ⟨_, _, hm, _⟩ | ⟨_, hm, _⟩ | ⟨_, hm, _⟩ <;> cases hm
+      have hp' := hp
+      simp only [propose, Res.bind_ok] at hp'
+      obtain ⟨maxE, h1, _⟩ := hp'
+      obtain ⟨expires, st, h2, _, hid, hle, _⟩ := propose_spec hp
+      refine ⟨⟨w, hw⟩, by rw [h1]; rfl, by rw [h2]; rfl, by omega⟩
+  · rintro ⟨⟨w, hw⟩, h1, h2, h3⟩
+    cases ha : afterChecked s.cfg.maxVotingPeriod blk with
+    | error e => rw [ha] at h1; cases h1
+    | ok maxE =>
+      have hmax := afterChecked_eq ha; subst hmax
+      cases hc : chooseExpiry (s.cfg.maxVotingPeriod.after blk) latest with
+      | error e => rw [hc] at h2; cases h2
+      | ok expires =>
+        have hwle : w ≤ s.cfg.totalWeight := by
+          rw [hi.total]; have := AMap.get?_le_sum s.voters snd; rw [hw] at this; simpa using this
+        have hprem : CwPlus.Props.C04.Premise (Proposal.tally ⟨t, d, blk.height, expires, msgs, .open, s.cfg.threshold,
+            s.cfg.totalWeight, Votes.ofYes w, snd, none⟩) := by
+          refine ⟨?_, hi.totalU64, hi.thrValid⟩
+          show CwPlus.Props.C04.cast (Votes.ofYes w) ≤ s.cfg.totalWeight
+          simp only [CwPlus.Props.C04.cast, Votes.ofYes]; omega
+        obtain ⟨st, hst⟩ := (CwPlus.Props.C04.no_panic hprem blk).2.2
+        have hst' : Proposal.currentStatus ⟨t, d, blk.height, expires, msgs, .open, s.cfg.threshold,
+            s.cfg.totalWeight, Votes.ofYes w, snd, none⟩ blk = .ok st := hst
+        have hmw : memberWeight s snd = .ok w := by simp [hw]
+        simp [Cw3Fixed.execute, execPropose, hmw, propose, ha, hc, hst', addU64, h3, bind, Except.bind, pure, Except.pure,
+          Res.isOk]
+
+/-- **The proposer's implicit ballot is the proposer's voter weight** (`vote_weight_is_voter_weight` for Propose): a
+successful Propose records, for the new proposal `count + 1`, exactly one ballot — `⟨VOTERS[snd], Yes⟩` under the
+sender's address — and the initial tally is that weight of Yes. -/
+theorem proposer_ballot_is_voter_weight {s s' : State} {blk : Block} {snd : Addr} {t d : String} {msgs : List Msg}
+    {latest : Option Expiration} {out : List Msg} (hi : Inv s)
+    (h : execute s blk snd (.propose t d msgs latest) = .ok (s', out)) :
+    ∃ w p, s.voters.get? snd = some w ∧ ballotsOf s'.core (s.core.count + 1) = [(snd, ⟨w, .yes⟩)] ∧
+      s'.core.proposals.get? (s.core.count + 1) = some p ∧ p.votes = Votes.ofYes w ∧ p.proposer = snd := by
+  obtain ⟨_, _, hc⟩ := execute_cases h
+  rcases hc with ⟨_, _, _, _, w, id0, hm, hw, _, hp⟩ | ⟨_, _, hm, _⟩ | ⟨_, hm, _⟩ | ⟨_, hm, _⟩ <;> cases hm
+  obtain ⟨expires, st, _, _, hid, _, hc'⟩ := propose_spec hp
+  subst hid
+  have hnone : s.core.proposals.get? (s.core.count + 1) = none := hi.wf.fresh (by omega)
+  have hb : ballotsOf s.core (s.core.count + 1) = [] := hi.wf.noBallots _ hnone
+  refine ⟨w, _, hw, ?_, by rw [hc']; exact AMap.get?_set_eq _ _ _, rfl, rfl⟩
+  rw [hc', ballotsOf_set]
+  simp [hb, AMap.set]
+
+/-- non-vacuity of `vote_ok_iff` / `propose_ok_iff` / `total_eq_sum_voters_run`: in the reachable example world (total 3 =
+2 + 1 + 0, voters a, b, z) before the votes: `a` may vote on proposal 1, the zero-weight `z` and the outsider `x` may
+not; `z` may propose, `x` may not. -/
+example :
+    let w := run 10 exWorld (exOps.take 1)
+    (execute w.ms exBlk "a" (.vote 1 .yes)).isOk = true ∧ (execute w.ms exBlk "z" (.vote 1 .no)).isOk = false ∧
+    (execute w.ms exBlk "x" (.vote 1 .yes)).isOk = false ∧
+    (execute w.ms exBlk "z" (.propose "t" "d" [] none)).isOk = true ∧
+    (execute w.ms exBlk "x" (.propose "t" "d" [] none)).isOk = false ∧
+    w.ms.cfg.totalWeight = 3 ∧ AMap.sum w.ms.voters = 3 := by
+  decide
 
 end CwPlus.Props.C06
